@@ -74,6 +74,8 @@ class Ctx:
         rt = 'rt/verifrt_native.go' if native else 'rt/verifrt_sym.go'
         rep[os.path.join(REPO, 'internal/verifrt/verifrt.go')] = os.path.join(VERIF, 'harness', rt)
         for v, r in files.items():
+            if '|' in r:                     # "symbolic-face|native-face" of one harness file
+                r = r.split('|')[1 if native else 0]
             rep[os.path.join(REPO, v)] = r if os.path.isabs(r) else os.path.join(VERIF, 'harness', r)
         p = os.path.join(self.out, name + ('-native' if native else '') + '.json')
         json.dump({'Replace': rep}, open(p, 'w'), indent=1)
